@@ -131,6 +131,36 @@ def consts():
     return out
 
 
+# ---------- the classification cache
+def cache_facts():
+    """(is `_determine_current_priv` memoised?, does `update_privilege_levels` ALWAYS reach `cache_clear()`?)
+    The second is read off the AST: the call is a top-level statement of the method, no statement before it contains a
+    `return` / `raise`, and the method is what `register_configuration_session` calls after creating the level."""
+    rel = "scrapli/driver/network/base_driver.py"
+    det = _method(rel, "BaseNetworkDriver", "_determine_current_priv")
+    cached = any("lru_cache" in ast.dump(d) or "cache" == getattr(d, "id", "") for d in det.decorator_list)
+    upd = _body(_method(rel, "BaseNetworkDriver", "update_privilege_levels"))
+    clears = False
+    for st in upd:
+        if (isinstance(st, ast.Expr) and isinstance(st.value, ast.Call) and isinstance(st.value.func, ast.Attribute)
+                and st.value.func.attr == "cache_clear" and _is_self_attr(st.value.func.value, "_determine_current_priv")):
+            clears = True
+            break
+        if any(isinstance(n, (ast.Return, ast.Raise)) for n in ast.walk(st)):
+            break          # a path leaves the method before the cache is cleared
+    # the graph must be rebuilt on every path as well (same rule)
+    rebuilds = False
+    for st in upd:
+        if isinstance(st, ast.Expr) and isinstance(st.value, ast.Call) and _is_self_attr(st.value.func, "_build_priv_graph"):
+            rebuilds = True
+            break
+        if any(isinstance(n, (ast.Return, ast.Raise)) for n in ast.walk(st)):
+            break
+    if not rebuilds:
+        raise TranslateError(f"{rel}: update_privilege_levels does not always rebuild the privilege graph")
+    return cached, clears
+
+
 # ---------- drivers, tables
 def _drivers(platform):
     import scrapli.driver.core as C
@@ -143,9 +173,27 @@ def _construct(cls, asyncio_):
 
 
 def _marker(platform):
-    """the substring tested by the platform's `_abort_config` guard (None when unguarded)"""
-    spec = abort_spec(platform)
-    return spec[1] if spec[0] == "ifSession" else None
+    """the substring tested by the platform's `_abort_config` guard (None when unguarded).  When the abort shape cannot be
+    translated (reported separately by abort_spec) the marker is looked for directly in the AST of both drivers."""
+    try:
+        spec = abort_spec(platform)
+        return spec[1] if spec[0] == "ifSession" else None
+    except TranslateError:
+        for rel, cls in ((f"scrapli/driver/core/{platform}/sync_driver.py", CLS[platform]),
+                         (f"scrapli/driver/core/{platform}/async_driver.py", "Async" + CLS[platform])):
+            fn = _method(rel, cls, "_abort_config", required=False)
+            for n in ast.walk(fn) if fn is not None else ():
+                if (isinstance(n, ast.Compare) and len(n.ops) == 1 and isinstance(n.ops[0], ast.In)
+                        and _is_self_attr(n.comparators[0], "_current_priv_level", "pattern") and isinstance(n.left, ast.Constant)):
+                    return n.left.value
+        return None
+
+
+def abort_spec_stack(platform, asyncio_):
+    """the abort shape of one stack alone (raises TranslateError when it is not one of the modelled shapes)"""
+    if asyncio_:
+        return _abort_one(f"scrapli/driver/core/{platform}/async_driver.py", "Async" + CLS[platform])
+    return _abort_one(f"scrapli/driver/core/{platform}/sync_driver.py", CLS[platform])
 
 
 
@@ -402,6 +450,10 @@ def generate():
     a += f"/-- DUMMY_PRIV_LEVEL.name -/\ndef dummyName : String := {lstr(c['dummy'])}\n"
     a += f"/-- acquire_priv gives up when privilege_change_count > len(privilege_levels) * loopFactor -/\ndef loopFactor : Nat := {c['factor']}\n"
     a += f"/-- the level `_pre_send_configs` resolves an empty privilege_level to -/\ndef configLevel : String := {lstr(c['configLevel'])}\n"
+    cached, clears = cache_facts()
+    a += f"/-- `_determine_current_priv` is memoised (lru_cache) -/\ndef classifyMemoised : Bool := {lbool(cached)}\n"
+    a += ("/-- every path through `update_privilege_levels` (run after a session level is added) reaches "
+          f"`_determine_current_priv.cache_clear()` -/\ndef updateClearsCache : Bool := {lbool(clears)}\n")
     a += "end Scrapli.Gen.Priv\n"
     b = HEADER.format(src=src) + "import ScrapliModel.Priv.Driver\nnamespace Scrapli.Gen.Priv\nopen Scrapli.Priv\n"
     for p in PLATFORMS:
